@@ -218,6 +218,13 @@ static CallbackSizeType sinkWrite(const char* d, CallbackSizeType n, void* h)
 static void sinkFlush(void* h) { ++static_cast<Sink*>(h)->flushes; }
 
 // ---- a non-indexed Xerces wrapper as parsed source (public API: XercesParserLiaison::createDocument(doc,false,false)) ---
+// XercesDOMParsedSourceHelper::create takes the liaison that built the source document since
+// proposed/C05-dom-unparsed-entity-uri.diff; compile against either signature
+template <class H>
+static auto makeHelper(MemoryManager& m, const XercesParserLiaison* l, int) -> decltype(H::create(m, l)) { return H::create(m, l); }
+template <class H>
+static XalanParsedSourceHelper* makeHelper(MemoryManager& m, const XercesParserLiaison*, long) { return H::create(m); }
+
 class LazyWrapperParsedSource : public XalanParsedSource
 {
 public:
@@ -225,7 +232,7 @@ public:
         m_liaison(l), m_doc(l.createDocument(d, false, false, false)), m_uri(uri, XalanMemMgrs::getDefaultXercesMemMgr()) {}
     ~LazyWrapperParsedSource() { m_liaison.destroyDocument(m_doc); }
     virtual XalanDocument* getDocument() const { return m_doc; }
-    virtual XalanParsedSourceHelper* createHelper(MemoryManager& m) const { return XercesDOMParsedSourceHelper::create(m); }
+    virtual XalanParsedSourceHelper* createHelper(MemoryManager& m) const { return makeHelper<XercesDOMParsedSourceHelper>(m, &m_liaison, 0); }
     virtual const XalanDOMString& getURI() const { return m_uri; }
 private:
     XercesParserLiaison& m_liaison;
@@ -297,6 +304,12 @@ static int doOne(XalanTransformer& tr, const Case& c, int srcKind, const XalanPa
     std::istringstream srcStream(c.xmlText);
     XSLTInputSource fileSrc(c.xml.c_str());
     XSLTInputSource streamSrc(&srcStream);
+    {
+        // a stream has no name of its own: the caller says where it came from (relative system identifiers, document())
+        XalanDOMString  uri;
+        URISupport::getURLStringFromString(XalanDOMString(c.xml.c_str()), uri);
+        streamSrc.setSystemId(uri.c_str());
+    }
     const XSLTInputSource& src = srcKind == 1 ? streamSrc : fileSrc;
     XSLTInputSource ss(c.xsl.c_str());
 
